@@ -300,3 +300,38 @@ func H_M1_cycle_required() {
 	}
 	nd.Assert(reported == want, "Unmarshal/CheckInitialized report a missing required field below a cycle of message types")
 }
+
+// H_M1_many_required: a message with 66 required fields (more than the 64 bits of the fast-path
+// required mask): with every field on the wire except possibly one (which one is symbolic, the
+// values are symbolic), Unmarshal's verdict (initialized flag, else CheckInitialized) and the
+// validator's flag must say "complete" exactly when no field is missing.
+//
+//verif:props=C10 bounds=VBig(66-required-int32-fields);all-fields-present-except-at-most-one(symbolic);values<128-symbolic maxsteps=20000000 ccap=80
+func H_M1_many_required() {
+	skip := nd.Int(0, vBigN) // 0: nothing missing
+	var b []byte
+	for i := 1; i <= vBigN; i++ {
+		if i == skip {
+			continue
+		}
+		b = protowire.AppendTag(b, protowire.Number(i), protowire.VarintType)
+		v := nd.Byte()
+		nd.Assume(v < 0x80)
+		b = append(b, v)
+	}
+	mi := vMI_Big()
+	p := pointer{p: unsafe.Pointer(new(VBig))}
+	out, err := mi.unmarshalPointer(b, p, 0, mOpts())
+	nd.Assert(err == nil, "well-formed input decodes")
+	if err != nil {
+		return
+	}
+	nd.Reach("decoded")
+	reported := out.initialized || mi.checkInitializedPointer(p) == nil
+	nd.Assert(reported == (skip == 0), "a missing required field is reported whichever of the 66 it is")
+	vout, st := mi.validate(b, 0, mOpts())
+	nd.Assert(st != ValidationInvalid, "validator accepts well-formed input")
+	if st == ValidationValid && vout.initialized {
+		nd.Assert(skip == 0, "validator never reports a partial message as initialized")
+	}
+}
